@@ -1,7 +1,7 @@
 from props import job
 
 PROP = dict(
-    technique="rapid-generated channel states; every spend the node derives (own force close, peer's current/pending commitment; via lnwallet descriptors and via contractcourt's real resolvers with a capturing sweeper) validated with btcd's script interpreter incl. negative controls; completeness against the bookkeeping model",
+    technique="rapid-generated channel states; every spend the node derives (own force close from a reloaded channel and from the live object between signature receipt and revocation, peer's current/pending commitment; via lnwallet descriptors and via contractcourt's real resolvers with a capturing sweeper) validated with btcd's script interpreter incl. negative controls; completeness against the bookkeeping model",
     level="exploration",
     rule=("states reached by C01-C03's generated schedules (mid-dance, with pending remote commitments, after "
           "reloads); at every k-th action and after every cut each side, loaded afresh from disk, force closes "
